@@ -492,6 +492,10 @@ package hermes
 //@   requires drain: 0 <= g.DRAIFAK && g.DRAIFAK <= 1
 //@   ensures day: wsum == old(wsum) + g.DT.Num
 //@   ensures count: ncalls - old(ncalls) >= 1 && real(ncalls - old(ncalls))*WDT == g.DT.Num
+// the number of sub-steps is computed in float64 as int(1/(1/ceil(ZSR))): over the reals that is ceil(ZSR) (clause
+// count above); that float64 rounding does not lose a step is checked by evaluating the real statements concretely
+// for every step count up to 2^20 (exhaustive over that domain)
+//@   fp-exhaustive[C01] stepcount: ZSR in 1..1048576 ; given g.DT.Num = 1 ; run "WDT = 1 / math.Ceil(ZSR)" ; run "var STEPS float64" ; run "if WDT < g.DT.Num {" ; check int(STEPS) == int(ZSR)
 //@ loop HermesSession.Run$1@"for I := 1; I <= g.N; I++ { index := I - 1 FSC :="
 //@   invariant range: 1 <= \i && \i <= g.N+1
 //@ loop HermesSession.Run$1@"for I := 1; I <= g.N; I++ { index := I - 1 if g.REGEN[g.TAG.Index]-FSCSUM[index]"
